@@ -147,3 +147,120 @@ merge_keys = FunctionContract(
 
 CONTRACTS = [add_node, merge_keys]
 LEMMAS = []
+
+
+# ------------------------------------------------------------------ merge_molecule: the newcomer's interactions and bonds
+Params, Meta, EAttr = TKey('Params'), TKey('Meta'), TKey('EAttr')
+OIT = TTuple(TSeq(OKey), Params, Meta, names=['atoms', 'parameters', 'meta'])       # an interaction of the newcomer
+SIT = TTuple(TSeq(TInt), Params, Meta, names=['atoms', 'parameters', 'meta'])       # ... of the receiver
+OEdge = TTuple(OKey, OKey)
+SEdge = TTuple(TInt, TInt)
+
+
+def setup_merge_rest(cx):
+    from pyvc.builtins import setitem, contains, list_append
+    from pyvc.interp import PyExc
+    SN = cx.heap('SELF_NODES', cx.box('SELF_NODES', TSet(TInt)))
+    SI = cx.heap('SELF_INTER', cx.box('SELF_INTER', TMap(TStr, TSeq(SIT))))
+    SE = cx.heap('SELF_EDGES', cx.box('SELF_EDGES', TSet(SEdge)))
+    ointer = cx.val('other_inter', TMap(TStr, TSeq(OIT)))
+    oedges = cx.val('other_edges', TSeq(OEdge))
+    cx.spec_env['other_inter'], cx.spec_env['other_edges'] = ointer, oedges
+    eattr = cx.uf('edge_attrs', [OKey, OKey], EAttr)
+
+    def add_interaction(e, type_, atoms, parameters, meta=None):
+        # Molecule.add_interaction by its contract (proved in contracts/c12.py, stated here for integer keys): KeyError unless
+        # every atom is an atom of the molecule; otherwise the interaction is appended to the list of its type
+        ae = to_z3(atoms, TSeq(TInt))
+        q = z3.FreshInt('aq')
+        ok = z3.ForAll([q], z3.Implies(z3.And(0 <= q, q < TSeq(TInt).len(ae)), z3.Select(SN.e, TSeq(TInt).at(ae, q))))
+        e.maybe_raise(ok, 'KeyError')
+        mt = type_of(SI)
+        te = to_z3(type_, TStr)
+        cur = z3.If(mt.has(SI.e, te), mt.at(SI.e, te), TSeq(SIT).empty())
+        rec = SIT.mk(ae, to_z3(parameters, Params), to_z3(meta, Meta))
+        new = TSeq(SIT).mk(TSeq(SIT).len(cur) + 1, z3.Store(TSeq(SIT).arr(cur), TSeq(SIT).len(cur), rec))
+        SI.e = mt.insert(SI.e, te, new)
+
+    def add_edge(e, a, b, **attrs):
+        SE.e = z3.Store(SE.e, SEdge.mk(to_z3(a, TInt), to_z3(b, TInt)), True)
+    o = cx.obj('Molecule')
+    o.attrs['add_interaction'] = Builtin(add_interaction, 'self.add_interaction')
+    o.attrs['add_edge'] = Builtin(add_edge, 'self.add_edge')
+    edges = Obj('EdgeView', __getitem__=Builtin(lambda e, k: SV(TMap(TStr, EAttr), e.fresh(TMap(TStr, EAttr), 'eattrs')), 'edges[]'))
+    edges.__dict__['iter'] = oedges
+    other = Obj('Molecule', interactions=ointer, edges=edges)
+    return dict(self=o, molecule=other, correspondence=cx.val('correspondence', TMap(OKey, TInt)))
+
+
+SPEC_MR = {
+    'olen': "lambda t: len(old(SELF_INTER)[t]) if t in old(SELF_INTER) else 0",
+    'C': "lambda k: correspondence[k]",
+    'has_e': "lambda E, a, b: (a, b) in E",
+    # the q-th interaction of type t of the newcomer, copied with its atoms renumbered
+    'copied': "lambda s, o: len(s.atoms) == len(o.atoms) and forall(lambda j: implies(0 <= j and j < len(o.atoms), s.atoms[j] == C(o.atoms[j]))) "
+              "and s.parameters == o.parameters and s.meta == o.meta",
+}
+SPEC_MR['done'] = ("lambda t: (t in SELF_INTER) == (t in old(SELF_INTER) or len(other_inter[t]) > 0) and "
+                   "(len(SELF_INTER[t]) if t in SELF_INTER else 0) == olen(t) + len(other_inter[t]) and "
+                   "forall(lambda q: implies(0 <= q and q < olen(t), SELF_INTER[t][q] == old(SELF_INTER)[t][q])) and "
+                   "forall(lambda q: implies(0 <= q and q < len(other_inter[t]), copied(SELF_INTER[t][olen(t) + q], other_inter[t][q])))")
+MR_TYPES_DONE = "forall(lambda t: implies(t in other_inter and posof(other_inter, t) < {I}, done(t)), TStr)"
+MR_TYPES_REST = ("forall(lambda t: implies(not (t in other_inter and posof(other_inter, t) < {I}) and {X}, (t in SELF_INTER) == (t in old(SELF_INTER)) and "
+                 "implies(t in SELF_INTER, SELF_INTER[t] == old(SELF_INTER)[t])), TStr)")
+merge_rest = FunctionContract(
+    F, 'Molecule.merge_molecule', 'C12', short='merge_molecule[interactions and bonds]', setup=setup_merge_rest, spec_defs=SPEC_MR,
+    spec_env=dict(OKey=OKey, Params=Params, Meta=Meta),
+    region=dict(start="for name, interactions in molecule.interactions.items():", end="self.citations.update(molecule.citations)"),
+    locals=dict(g_w=TMap(SEdge, TInt)),
+    requires=[
+        # what the atom part establishes (its postcondition): every atom of the newcomer has its new key, which is an atom of
+        # the receiver; the newcomer's interactions and bonds refer to its own atoms (its class invariant)
+        "forall(lambda t, q, j: implies(t in other_inter and 0 <= q and q < len(other_inter[t]) and 0 <= j and j < len(other_inter[t][q].atoms), "
+        "   other_inter[t][q].atoms[j] in correspondence and C(other_inter[t][q].atoms[j]) in SELF_NODES), TStr, TInt, TInt)",
+        "forall(lambda q: implies(0 <= q and q < len(other_edges), other_edges[q][0] in correspondence and other_edges[q][1] in correspondence))",
+    ],
+    ghost_at={'entry': "g_w = {}"},
+    ensures=[
+        # every interaction of the newcomer is appended, in order, to the receiver's list of its type, with the atoms
+        # renumbered and parameters and meta kept; the receiver's own interactions stay, lists of other types are untouched
+        MR_TYPES_DONE.format(I='len(other_inter)'), MR_TYPES_REST.format(I='len(other_inter)', X='True'),
+        # every bond of the newcomer (between atoms that get different keys) is a bond between the renumbered atoms; no
+        # other bond appears; the receiver's bonds stay
+        "forall(lambda q: implies(0 <= q and q < len(other_edges) and C(other_edges[q][0]) != C(other_edges[q][1]), "
+        "   (C(other_edges[q][0]), C(other_edges[q][1])) in SELF_EDGES))",
+        "forall(lambda a, b: implies((a, b) in SELF_EDGES and not ((a, b) in old(SELF_EDGES)), 0 <= g_w[(a, b)] and g_w[(a, b)] < len(other_edges) and "
+        "   a == C(other_edges[g_w[(a, b)]][0]) and b == C(other_edges[g_w[(a, b)]][1])))",
+        "forall(lambda a, b: implies((a, b) in old(SELF_EDGES), (a, b) in SELF_EDGES))",
+        "SELF_NODES == old(SELF_NODES)",
+    ],
+    modifies=['SELF_INTER', 'SELF_EDGES'],
+    loops={
+        'L1': LoopSpec(inv=[MR_TYPES_DONE.format(I='_i'), MR_TYPES_REST.format(I='_i', X='True'), "SELF_EDGES == old(SELF_EDGES)"],
+                       modifies=['SELF_INTER'],
+                       ghost_end="prove(name in other_inter and posof(other_inter, name) == _i and keyat(other_inter, _i) == name, 'this-type')\n"
+                                 "prove(done(name), 'this-type-done')\n"
+                                 "prove(forall(lambda t: implies(t in other_inter and posof(other_inter, t) < _i, done(t)), TStr), 'earlier-types')"),
+        'L1.1': LoopSpec(inv=[MR_TYPES_DONE.format(I='_iL1'), MR_TYPES_REST.format(I='_iL1', X='t != name'),
+                              "name in other_inter and posof(other_inter, name) == _iL1",
+                              "implies(_i > 0 or name in old(SELF_INTER), name in SELF_INTER) and "
+                              "(len(SELF_INTER[name]) if name in SELF_INTER else 0) == olen(name) + _i",
+                              "forall(lambda q: implies(0 <= q and q < olen(name), SELF_INTER[name][q] == old(SELF_INTER)[name][q]))",
+                              "forall(lambda q: implies(0 <= q and q < _i, copied(SELF_INTER[name][olen(name) + q], other_inter[name][q])))",
+                              "implies(_i == 0 and not (name in old(SELF_INTER)), not (name in SELF_INTER))",
+                              "SELF_EDGES == old(SELF_EDGES)"],
+                         modifies=['SELF_INTER']),
+        'L2': LoopSpec(inv=["forall(lambda q: implies(0 <= q and q < _i and C(other_edges[q][0]) != C(other_edges[q][1]), "
+                            "   (C(other_edges[q][0]), C(other_edges[q][1])) in SELF_EDGES))",
+                            "forall(lambda a, b: implies((a, b) in SELF_EDGES and not ((a, b) in old(SELF_EDGES)), 0 <= g_w[(a, b)] and g_w[(a, b)] < _i and "
+                            "   a == C(other_edges[g_w[(a, b)]][0]) and b == C(other_edges[g_w[(a, b)]][1])))",
+                            "forall(lambda a, b: implies((a, b) in old(SELF_EDGES), (a, b) in SELF_EDGES))"],
+                       modifies=['SELF_EDGES', 'g_w'], locals=dict(g_w=TMap(SEdge, TInt)), ghost_pre="g_E = set(SELF_EDGES)",
+                       ghost_end="if correspondence[node1] != correspondence[node2] and not ((correspondence[node1], correspondence[node2]) in g_E):\n"
+                                 "    g_w[(correspondence[node1], correspondence[node2])] = _i"),
+    },
+    canary=[("atoms = tuple(correspondence[atom] for atom in interaction.atoms)", "atoms = tuple(correspondence[interaction.atoms[0]] for atom in interaction.atoms)"),
+            ("self.add_edge(correspondence[node1], correspondence[node2], **attrs)", "self.add_edge(correspondence[node1], correspondence[node1], **attrs)"),
+            ("self.add_interaction(name, atoms, interaction.parameters, interaction.meta)", "self.add_interaction(name, atoms, interaction.parameters, {})")],
+)
+CONTRACTS.append(merge_rest)
